@@ -48,6 +48,12 @@ CLAIMED = {
         text="Lean theorem source_is_documented (all field counts, all attribute placements, all positions of ignored fields): the enabled-position the code selects, converted back, is the field the documented rules select, errors included; returned fields are never ignored; double #[error(source)] is an error. The model and a second (Python) statement of the rules are compared with the working-tree expansion on the whole grid of 0..3 fields x 8 attribute forms x names x types (quick: all shapes with <= 2 fields + 9000 three-field shapes; thorough: exhaustive), and 180 shapes are compiled (nightly, real macro) to compare the address source() returns with the addresses of the fields",
         note="Lean kernel; model tied by differential run on the grid; as_dyn_error dispatch and the nightly-only provide() half are not modelled",
         ref="DESIGN.md §4 C09"),
+    "C12": dict(
+        level="proof",
+        technique="Lean 4 theorems by induction over variant lists (constants == Rust's discriminant rule; match == inverse of the cast) + expansion correspondence + full 8/16-bit domains with the real macro",
+        text="Lean theorems for every enum layout and every integer: the reconstructed constants `(last explicit) + offset` equal the discriminants of Rust's rule (const_is_discriminant, induction with the (last, inc) invariant), try_from(n) = Ok(v) iff v is the field-less variant with discriminant n, otherwise Err (try_from_iff), round trip with the cast, repr detection. The model (repr, constant tokens, arms) is compared with the working-tree expansion on 3000 generated layouts incl. the impl header; 40 enums are run with the real macro over the whole i8/u8/i16/u16 domain (wider reprs: discriminants +-1 and extremes) against `variant as repr`",
+        note="Lean kernel; model tied by differential run; rustc's const evaluation modelled as integer arithmetic; discriminant expressions enter the model as their value (the parenthesisation of the emitted tokens is covered by the token-level correspondence and the behaviour run)",
+        ref="DESIGN.md §4 C12"),
 }
 
 NOT_APPLICABLE = {}
